@@ -186,7 +186,11 @@ func run(c *fw.Ctx, idx int) {
 		// a concurrent pair: the item is re-allocated elsewhere (the tracker's
 		// best-effort unpin is held inside the daemon) and removed from the
 		// pinset at the same time; the held unpin then fails or succeeds
-		if in.c != 3 && r.Chance(1, 14) && atomic.LoadInt32(&healthy) == 0 {
+		// (only when nothing is pending for this CID and the daemon is idle: otherwise an
+		// earlier operation's call could be taken for the re-allocation's unpin and the
+		// order in which the two instructions reach the tracker would not be the assumed one)
+		pendingNow := before == api.TrackerStatusPinQueued || before == api.TrackerStatusUnpinQueued || before == api.TrackerStatusPinning || before == api.TrackerStatusUnpinning
+		if in.c != 3 && r.Chance(1, 14) && atomic.LoadInt32(&healthy) == 0 && !pendingNow && rig.IPFS.Inflight() == 0 {
 			pin := api.PinCid(ci)
 			pin.Name = fmt.Sprintf("i%d", i)
 			pin.ReplicationFactorMin, pin.ReplicationFactorMax = 1, 1
